@@ -50,7 +50,95 @@ def r07a(ctx, P):
            {"tests_examined_fields": sorted(looked_at)})
 
 
+MATCHES = "searchlite_core::api::reader::QueryEvaluator::<'a>::matches_node"
+
+
+def r07b(ctx, P):
+    rid = "R07.b"
+    from sa import boolpaths
+    from sa.prog import influence, op_local
+    from sa.rules.C13 import _is_error_exit_test
+    ctx.rule(rid, "DECISION TABLE + FLOW for the bool default: in QueryEvaluator::matches_node the default of minimum_should_match (the "
+                  "closure given to unwrap_or_else on the Bool matcher's field) is extracted as a decision table over "
+                  "is_empty(should/must/filter): 0 without should clauses; 1 when there are should clauses and neither must nor filter "
+                  "clauses; 0 (optional) when a must or filter clause exists — the clause the statement spells out. And nothing "
+                  "derived from `must_not` influences the threshold or the comparison (data slice incl. closure captures, plus the "
+                  "tests controlling the definitions, loop tests and early exits excluded): a bool whose only positive clauses are "
+                  "should clauses is their disjunction whatever it excludes")
+    f = P.fn(MATCHES)
+    if not ctx.anchor(rid, f, "QueryEvaluator::matches_node"):
+        return
+    ctx.saw(f)
+    sl = Slice(f, through_all_calls=True)
+    sites = []
+    for b, t in f.calls():
+        cal = callee_of(t)
+        if cal.endswith(("Option::<T>::unwrap_or_else", "Option::<T>::unwrap_or", "Option::<T>::map_or", "Option::<T>::map_or_else")) and \
+                "minimum_should_match" in Slice(f).fields(t["args"][0]) and "usize" in t.get("dst_ty", ""):
+            sites.append((b, t))
+    # only the Bool arm: its site mentions should/must captures
+    bool_sites = []
+    for b, t in sites:
+        clos = [x[3]["closure"] for a in t["args"][1:] for x in sl.sources(a) if x[0] == "agg" and x[3].get("closure")]
+        fl = set()
+        for a in t["args"][1:]:
+            fl |= sl.fields(a)
+        if clos or "should" in fl:
+            bool_sites.append((b, t, clos))
+    ctx.floor(rid, len(bool_sites), 1, "default of minimum_should_match in the Bool arm of matches_node")
+    for b, t, clos in bool_sites:
+        site = Site(f, b)
+        # (1) decision table, when the default is a closure over is_empty() of the clause lists only
+        decided = None
+        detail = ""
+        if clos and P.fn(clos[0]) is not None:
+            g = P.fn(clos[0])
+            ctx.saw(g)
+
+            def atom_of_place(pl):
+                fl = [e["f"].replace("upvar:", "").lstrip("*") for e in pl["p"] if isinstance(e, dict) and "f" in e]
+                return ("flag", fl[-1]) if fl else None
+            ps = boolpaths.paths(g, g.entry if hasattr(g, "entry") else 0, lambda bb: None, atom_of_place, track_return=True)
+            atoms = {a for p_ in ps for a in p_.cons}
+            known = {("is_empty", "should"), ("is_empty", "must"), ("is_empty", "filter")}
+            if atoms <= known and not any(p_.opaque for p_ in ps) and all(p_.ret is not None and p_.ret[0] == "const" for p_ in ps):
+                bad = []
+                for se in (True, False):
+                    for me in (True, False):
+                        for fe in (True, False):
+                            asg = {("is_empty", "should"): se, ("is_empty", "must"): me, ("is_empty", "filter"): fe}
+                            rets = {p_.ret[1] for p_ in ps if all(asg[a] == v for a, v in p_.cons.items())}
+                            want = 0 if se else (1 if (me and fe) else 0)
+                            if rets != {want}:
+                                bad.append("should%s must%s filter%s -> %s (expected %d)" % (
+                                    "=[]" if se else "!=[]", "=[]" if me else "!=[]", "=[]" if fe else "!=[]", sorted(rets), want))
+                decided = not bad
+                detail = "; ".join(bad)
+            else:
+                detail = "the default depends on %s: table not extracted" % sorted(atoms - known)
+        if decided is not None:
+            ctx.ob(rid, "%s:matches_node:bool-default-table" % rid, decided,
+                   "default minimum_should_match: 0 without should, 1 with should and no must/filter, 0 otherwise (8 rows)" if decided else
+                   "default minimum_should_match deviates from the documented bool semantics: %s" % detail, site.loc())
+        else:
+            ctx.note("R07.b: %s (only the independence from must_not is decided)" % detail)
+        # (2) independence from must_not
+        def excl(a, f=f):
+            t_ = f.blocks[a]["term"]
+            return any("ForLoop" in m or "WhileLoop" in m for m in (t_.get("macros") or [])) or _is_error_exit_test(f, a)
+        inf = influence(f, {"cp": {"l": t["dst"]["l"], "p": []}}, excl)
+        for a in t["args"]:
+            more = influence(f, a, excl)
+            inf["fields"] |= more["fields"]
+        ok = "must_not" not in inf["fields"]
+        ctx.ob(rid, "%s:matches_node:bool-default-independent-of-must_not" % rid, ok,
+               "the should threshold is influenced by %s only" % sorted(x for x in inf["fields"] if x in ("should", "must", "filter", "minimum_should_match")) if ok else
+               "the number of should clauses a document must satisfy depends on `must_not`: a bool with should + must_not clauses no "
+               "longer means (any should) AND NOT (must_not)", site.loc())
+
+
 def run(ctx, progs):
     P = progs.get("default")
     r07a(ctx, P)
+    r07b(ctx, P)
     ctx.assumptions += ["everything else in the statement (boolean semantics, analyzers, phrase slop, expansion caps) is runtime and not decided"]
